@@ -213,12 +213,13 @@ _EXTRA2 = {
     "C05": " SelectionProblem._evaluate (what the optimisers see) is proved on bounded shapes to label the three parts of evalfn F / G / H and to leave out exactly the empty ones, for vector and matrix input.",
     "C20": " __init__ is under a straight-line unit: every operator and each of the five start containers is stored under its own name (the object passed or a copy with the same content), t_cur starts at 0.",
     "C04": " rrBLUPModel0.fit is executed on stand-ins: fit_numpy gets the unscaled phenotypes and the {0,1,2} dosages (the coding every prediction routine uses) of the objects passed, raw arrays untouched. The numpy-level var_a_numpy / bulmer_numpy are also proved for an explicit tetraploid ploidy. TrueBreedingValue.estimate is executed against a model stand-in that answers gebv and gegv differently: exactly one call, gebv, on the genotypes passed in, result returned as is.",
+    "C08": " A second frame obligation per function: no call to a third-party helper that owns a generator seeded from the operating system (pymoo helpers decorated @default_random_state, called without random_state=) and no unseeded default_rng()/RandomState(); the operator module's tiling helper is checked natively to be a function of prng.seed.",
     "C09": " The phased unit also runs haploid and triploid matrices (one and three chromosome copies). Every statistic is proved again after new allele calls were written in place through the array that .mat hands out (no statistic may be served from a stale cache).",
     "C11": " The physical-position wrappers gdist1p / gdist2p (both map classes, with and without index windows) and rprob1g/2g/1p/2p (both map functions) are "
            "executed on recording stand-ins: positions are interpolated for ALL markers, the genetic-position routine gets those and the caller's window, its result is returned (through mapfn for rprob*). gdist2g is proved (<=5 markers on 1-3 chromosomes, positions symbolic) to return for every pair of row / column windows, square or rectangular, on or off the diagonal, the corresponding block of |g_i - g_j| / +inf.",
     "C13": " The kinship format is proved to be half of the coancestry the matrix holds NOW, also after reorder_taxa and after an in-place write through .mat.",
     "C15": " DenseScaledMatrix itself is under a bounded-symbolic unit: unscale(inplace=False) == mat*scale+location and leaves matrix, location and scale untouched (twice in a row), transform/untransform(copy=True) are inverse and do not write their argument, unscale(inplace=True) leaves raw values with location 0 and scale 1.",
-    "C19": " The USE of the dominance predicate by the memetic hill climber is checked natively (bounded): the leader it returns is never dominated by a solution it evaluated, with constraint values reported as signed slacks. The third implementation of the distance transformation (core/util/trans.py trans_ndpt_pseudo_dist) is part of the same bounded-symbolic unit.",
+    "C19": " The stochastic-descent memetic hill climber is checked natively to return mutually non-dominated individuals. The USE of the dominance predicate by the memetic hill climber is checked natively (bounded): the leader it returns is never dominated by a solution it evaluated, with constraint values reported as signed slacks. The third implementation of the distance transformation (core/util/trans.py trans_ndpt_pseudo_dist) is part of the same bounded-symbolic unit.",
     "C14": " TrueBreedingValue.estimate is under the C04 wiring unit here too (its result is the model's gebv of the genotypes passed in, never its phenotype argument, also when that is a breeding-value matrix of matching size). TruePhenotyping.phenotype is proved (bounded shapes) to report exactly the bound model's true genotypic values (gegv, not gebv) with the labels carried.",
     "C18": " The OPV and genotype-builder latentfn are proved (bounded shapes, all block values) to equal minus ploidy times the block-wise best value among the selected "
            "individuals for the block values the problem holds NOW: on construction, after the haplomat setter and after an in-place write. The three _calc_haplomat copies (OHV, OPV, genotype builder) are proved like haplo.haplomat, with a model stand-in whose u (miscellaneous + additive effects), u_misc and beta differ from u_a: block values are sums of ADDITIVE marker effects.",
